@@ -231,6 +231,10 @@ def for_invariant(V, s, st, it, enum, start, inv, key):
 
     def inv_env(done, rest, item=None):
         e = {'DONE': SV(seq_t, done), 'REST': SV(seq_t, rest), 'SEQ': SV(seq_t, S)}
+        for nm in names:
+            # values the loop-carried variables had when the loop was entered
+            if nm in st.env and not isinstance(st.env[nm], MU):
+                e['PRE_' + nm] = st.env[nm]
         if item is not None:
             e['ITEM'] = item
         return e
@@ -254,6 +258,13 @@ def for_invariant(V, s, st, it, enum, start, inv, key):
         env.update(yielded(st))
         V.oblige(st, V.eval_spec_bool(e, st, env), 'inv-init', 'loop %s: %s' % (key, e), s)
     before = st
+    # per-element facts: proved for every element of the sequence at loop entry, used for ITEM
+    each = V.c.loop_each.get(key, [])
+    for e in each:
+        qi = z3.Int(fresh_name('each'))
+        body = V.eval_spec_bool(e, st, {'ITEM': SV(et, S[qi])})
+        V.oblige(st, z3.ForAll([qi], z3.Implies(z3.And(qi >= 0, qi < z3.Length(S)), body)), 'inv-init',
+                 'loop %s: every element satisfies %s' % (key, e), s, assume=False)
     # arbitrary iteration
     h = st.fork()
     havoc(V, h, names, heap_keys, yl, before)
@@ -261,6 +272,8 @@ def for_invariant(V, s, st, it, enum, start, inv, key):
     rest = z3.Const(fresh_name('REST'), sort_of(seq_t))
     item = fresh(et, 'ITEM')
     h.assume(S == z3.Concat(done, z3.Unit(item.z), rest))
+    for e in each:
+        h.assume(V.eval_spec_bool(e, h, {'ITEM': item}))
     env = inv_env(done, z3.Concat(z3.Unit(item.z), rest), item)
     env.update(yielded(h))
     for e in inv:
